@@ -30,6 +30,7 @@ type seqEnv struct {
 	colls2  map[string]*rosmar.Collection // via h2
 	feeds   map[string]*feedBuf
 	markers int
+	vdef    map[string]string // design-document variant installed per collection
 }
 
 var envSerial int32
@@ -174,6 +175,26 @@ func (sr *seqRunner) runPath(trNo int, ops []GenOp) error {
 			return ki
 		},
 		maxCas: func() uint64 { return maxCas }}
+	if env.vdef == nil {
+		env.vdef = map[string]string{}
+	}
+	x.swapDDoc = func(coll string) error {
+		nv := "B"
+		if env.vdef[coll] == "B" {
+			nv = "A"
+		}
+		env.vdef[coll] = nv
+		return env.colls[coll].PutDDoc(context.Background(), "vd", viewDDocVariant(nv))
+	}
+	// every path starts with variant A of the design document
+	for _, c := range collNames {
+		if env.vdef[c] == "B" {
+			if err := env.colls[c].PutDDoc(context.Background(), "vd", viewDDocVariant("A")); err != nil {
+				return err
+			}
+			env.vdef[c] = "A"
+		}
+	}
 	// path start marker: its CAS is the backfill start of all dumps of this path
 	startCas := map[string]uint64{}
 	for _, c := range collNames {
